@@ -3,9 +3,13 @@ package harness
 import (
 	"context"
 	"fmt"
+	"net"
 	"net/http"
+	"os"
 	"strings"
 	"sync"
+	"sync/atomic"
+	"syscall"
 	"testing"
 	"time"
 
@@ -23,7 +27,8 @@ type C20Case struct {
 	Rounds  int   `json:"rounds"`
 	Ops     []int `json:"ops"` // interleaved client-side operations (cycled by the side goroutines)
 	Real    bool  `json:"real"`
-	Idle    int   `json:"idle,omitempty"` // further sessions that have been initialised but hold no listening stream (sends to them fail)
+	Idle    int   `json:"idle,omitempty"`
+	Retry   bool  `json:"retry,omitempty"` // HTTP clients: created with a retry option; a third of the calls lose their connection once (several calls retry at the same time) // further sessions that have been initialised but hold no listening stream (sends to them fail)
 }
 
 func genC20(t *rapid.T) C20Case {
@@ -33,6 +38,7 @@ func genC20(t *rapid.T) C20Case {
 		c.Ops = append(c.Ops, rapid.IntRange(0, 7).Draw(t, "op"))
 	}
 	c.Idle = rapid.SampledFrom([]int{0, 0, 2, 3, 5}).Draw(t, "idle")
+	c.Retry = !c.Real && c.Mode != ModeStdio && rapid.IntRange(0, 2).Draw(t, "retry") == 0
 	return c
 }
 
@@ -68,11 +74,24 @@ func execC20(c C20Case) *Failure {
 		}
 		return mcp.NewTextResult("ok"), nil
 	})
-	lc, err := w.ConnectLib(c.Real, &ChildSpec{Role: "c01"})
+	var copts []mcp.ClientOption
+	if c.Retry {
+		copts = append(copts, mcp.WithRetry(mcp.RetryConfig{MaxRetries: 3, InitialBackoff: time.Millisecond, BackoffFactor: 2, MaxBackoff: 4 * time.Millisecond}))
+	}
+	lc, err := w.ConnectLib(c.Real, &ChildSpec{Role: "c01"}, copts...)
 	if err != nil {
 		return Failf("C20/connect", "%v", err)
 	}
 	defer lc.Close()
+	if c.Retry && lc.Bridge != nil {
+		var nth atomic.Int64
+		lc.Bridge.SetFault(func(r *SeenReq) error {
+			if (r.RPC == "tools/call" || r.RPC == "tools/list") && nth.Add(1)%3 == 0 {
+				return &net.OpError{Op: "read", Net: "tcp", Err: os.NewSyscallError("read", syscall.ECONNRESET)}
+			}
+			return nil
+		})
+	}
 	cl := lc.C
 	if w.Srv != nil && c.Mode.Stateful() {
 		waitRegistered(w.Srv, 1) // the client's listening stream
